@@ -133,6 +133,8 @@ func isTable(b *Block, base string) bool {
 }
 
 // sidIn finds a value starting with "sid-" in a label document (any key).
+func SidIn(doc string) string { return sidIn(doc) }
+
 func sidIn(doc string) string {
 	var m map[string]string
 	if json.Unmarshal([]byte(doc), &m) == nil {
